@@ -65,6 +65,7 @@ Qed.
 (* ---- finalize_seektable (after the fix of F-C09a) on a selection of the per-frame candidates *)
 Theorem finalize_seektable_spec blocks frames sel :
   Forall oblock_ser_ok blocks -> Forall (fun x => 1 <= fst x) frames -> selected_ok frames sel ->
+  total_fst frames <= U64_MAX ->
   exists blocks', finalize_seektable blocks sel = Ok blocks' /\ Forall oblock_ser_ok blocks' /\
     match first_seektable blocks with
     | Some old =>
@@ -75,10 +76,10 @@ Theorem finalize_seektable_spec blocks frames sel :
         first_seektable blocks' = Some (map to_mpoint (take_n sel MAX_POINTS))
     end.
 Proof.
-  intros Fb Ff S. unfold finalize_seektable, finalize_seektable_gen.
+  intros Fb Ff S Hmax. unfold finalize_seektable, finalize_seektable_gen.
   destruct (first_seektable blocks) as [old|] eqn:Es.
   - pose proof (first_seektable_ser_ok _ _ Fb Es) as Ln.
-    destruct (to_contiguous_selected frames sel (length old) (N.of_nat (length old)) Ff S Ln) as [C T].
+    destruct (to_contiguous_selected frames sel (length old) (N.of_nat (length old)) Ff S Hmax Ln) as [C T].
     cbv zeta in C, T. rewrite C. cbn [bind].
     set (pts := take_n (map to_mpoint sel ++ repeat Placeholder (length old)) (N.of_nat (length old))) in *.
     assert (Lp : length pts = length old).
@@ -90,7 +91,7 @@ Proof.
     + apply set_first_seektable_first in E. tauto.
   - destruct (first_padding blocks) as [ps|] eqn:Ep.
     2:{ eexists. split; [reflexivity|]. split; [exact Fb|]. left. exact Es. }
-    destruct (to_contiguous_selected frames sel 0 MAX_POINTS Ff S (N.le_refl _)) as [C T].
+    destruct (to_contiguous_selected frames sel 0 MAX_POINTS Ff S Hmax (N.le_refl _)) as [C T].
     cbv zeta in C, T. cbn [repeat] in C, T. rewrite app_nil_r, take_n_map in C, T.
     rewrite C. cbn [bind]. rewrite T. cbn [andb].
     set (pts := map to_mpoint (take_n sel MAX_POINTS)) in *.
@@ -214,6 +215,7 @@ Proof.
       { pose proof (st_interval e S) as Hi. rewrite Ei in Hi. destruct iv; auto. }
       assert (Ss : selected_ok (frames_info e) sel) by (eapply filter_subseq; eauto).
       destruct (finalize_seektable_spec (e_blocks e) (frames_info e) sel (st_blocks e S) Fn Ss) as (bl & Hb & Fb & _).
+      { destruct (inv_fit e I) as [Hts _]. unfold true_samples, sum_fst in Hts. unfold total_fst, U64_MAX. change (2 ^ 64) with 18446744073709551616 in Hts. lia. }
       exists sel, bl. rewrite Hs. cbn [bind]. repeat split; auto.
     - exists [], (e_blocks e). repeat split; auto. apply subseq_nil. apply (st_blocks e S). }
   rewrite E1. cbn [bind].
@@ -301,10 +303,12 @@ Proof.
   destruct Sp as (f' & sel & Hf & _ & Hb & Ss & _ & _). rewrite Hf in H. inversion H; subst f'. clear H.
   rewrite Ei in Hb. destruct Hb as [Hs Hb].
   destruct (selected_asc _ _ Fn Ss) as [A D].
-  destruct (finalize_seektable_spec (e_blocks e) (frames_info e) sel (st_blocks e S) Fn Ss) as (bl & Hb' & _ & Ht).
+  assert (Hmax : total_fst (frames_info e) <= U64_MAX).
+  { destruct (inv_fit e I) as [Hts _]. unfold true_samples, sum_fst in Hts. unfold total_fst, U64_MAX. change (2 ^ 64) with 18446744073709551616 in Hts. lia. }
+  destruct (finalize_seektable_spec (e_blocks e) (frames_info e) sel (st_blocks e S) Fn Ss Hmax) as (bl & Hb' & _ & Ht).
   rewrite Hb in Hb'. inversion Hb'; subst bl. clear Hb'.
   (* the regenerated table *)
-  destruct (to_contiguous_selected (frames_info e) sel 0 MAX_POINTS Fn Ss (N.le_refl _)) as [C T].
+  destruct (to_contiguous_selected (frames_info e) sel 0 MAX_POINTS Fn Ss Hmax (N.le_refl _)) as [C T].
   cbv zeta in C, T. cbn [repeat] in C, T. rewrite app_nil_r, take_n_map in C, T.
   assert (G : generate_seektable p (si_rate (e_si e)) (frames_info e) iv = Ok (map to_mpoint (take_n sel MAX_POINTS))).
   { unfold generate_seektable. rewrite Hs. cbn [bind]. exact C. }
@@ -313,7 +317,7 @@ Proof.
   destruct (first_seektable (e_blocks e)) as [old|] eqn:Eo.
   - rewrite Hp in Ht. inversion Ht; subst pts. clear Ht.
     pose proof (first_seektable_ser_ok _ _ (st_blocks e S) Eo) as Ln.
-    destruct (to_contiguous_selected (frames_info e) sel (length old) (N.of_nat (length old)) Fn Ss Ln) as [C1 _].
+    destruct (to_contiguous_selected (frames_info e) sel (length old) (N.of_nat (length old)) Fn Ss Hmax Ln) as [C1 _].
     cbv zeta in C1. apply to_contiguous_ok in C1. destruct C1 as (_ & _ & C1).
     split; [exact C1|]. split.
     + intros s b m Hin. eapply defined_in_table; eauto.
